@@ -12,7 +12,8 @@ CHECKS = {
         text="TLC enumerates every expression tree of the bounded grammar (all parent/child/side operator triples; thorough: both "
              "operands compound and depth 3), model-checks the intended bracket rule of the spec against the spec's own Pratt parser "
              "(ParseBack), then each tree is built with the real operators, rendered under six dialect contexts and the real token "
-             "stream is parsed back by the same TLA+ parser inside TLC; canonical trees must agree. Exhaustive within the bound, "
+             "stream is parsed back by the same TLA+ parser inside TLC; canonical trees must agree. Criteria combined by the API rather than by an operator (repeated "
+             "filter / where / having / prewhere / conflict-where calls, filter(a, b), Criterion.all / any) are parsed back against the conjunction / disjunction of their parts. Exhaustive within the bound, "
              "which is the level the property (a product over operator triples) needs.",
         ref="6/C06", technique="TLA+ reference parser (PT_Expr) + TLC enumeration of trees + trace judging of real renderings (J_C06)"),
     "C01": dict(
@@ -21,13 +22,15 @@ CHECKS = {
              "with the tables MEASURED on the live code (predicting violating histories), and the same run enumerates every call tree (any live "
              "object as receiver) of <=2 calls over all ~50 labels of each of 85 scenarios (class x seed state x dialect builder), 3 calls over labels "
              "with an observed in-place effect. Every tree is executed on the real library with all live objects observed after each step; "
-             "J_Frozen (TLC) checks each recorded execution against the protocol. Coverage of the package's @builder methods is measured by "
-             "introspection (a method without a label is a machinery failure).",
+             "J_Frozen (TLC) checks each recorded execution against the protocol: no earlier object changes (Frozen) and every object made in a branching "
+             "history equals the one its own lineage gives when executed alone (PT_Sharing!Functional: sibling independence). Labels that pass one shared "
+             "un-aliased subquery to several calls are explored to depth 4. Coverage of the package's @builder methods is measured by introspection; a method "
+             "the catalogue does not name gets signature-derived labels, one that accepts none of them is reported in the evidence.",
         ref="6/C01", technique="TLA+ heap model of copy/effect sharing (PT_Sharing) explored by TLC with measured tables; call trees replayed on the code; TLC trace judge (J_Frozen)"),
     "C08": dict(
         text="PT_Dialect gives the convention table Conv[d] (identifier quote, placeholder style and numbering, boolean / array / interval forms, set-operand "
-             "bracketing, row-limiting vocabulary), Broken(toks, d) = the conventions a token stream breaks, and Norm (conventions erased). TLC enumerates 9 "
-             "dialect-sensitive elements x 10 nesting constructs at depth 1 and 2; each program is rendered under the six dialect classes twice - natively built, and "
+             "bracketing, row-limiting vocabulary), Broken(toks, d) = the conventions a token stream breaks, and Norm (conventions erased). TLC enumerates 11 "
+             "dialect-sensitive elements (incl. backslash strings and JSON documents: the escape convention) x 10 nesting constructs at depth 1 and 2; each program is rendered under the six dialect classes twice - natively built, and "
              "with the inner parts built by the generic classes - and J_C08 (TLC) requires: no convention broken at any depth, mixed-built = natively built token "
              "streams, and Norm-equality over all ordered dialect pairs for the neutral subset.",
         ref="6/C08", technique="TLA+ convention table and normalisation (PT_Dialect); TLC element x nesting product rendered natively and mixed; TLC judge (J_C08)"),
@@ -41,15 +44,17 @@ CHECKS = {
     "C10": dict(
         text="PT_Embed gives per embedding position what may surround the stand-alone text (brackets, alias) and the relation EmbedsVerbatim: outer tokens = "
              "frame-before . stand-alone inner tokens (placeholders renumbered) . frame-after, where the frame is read off the same outer statement around a "
-             "benign inner query and must agree with Embed (FrameOK). TLC enumerates 86 inner queries - an aliased term of 9 term classes in each inner clause "
-             "(select, where, group by, having, order by, join on, paginated), nested and parameter-carrying inner queries - x 10 positions (FROM, JOIN, IN, "
-             "comparison, select item, CTE body, INSERT..SELECT, set-operation base / operand, CREATE TABLE AS) x 6 dialects. Both renderings come from the real "
+             "benign inner query and must agree with Embed (FrameOK). TLC enumerates ~90 inner queries - an aliased term of 9 term classes in each inner clause "
+             "(select, where, group by, having, order by, join on, paginated), nested and parameter-carrying inner queries, DML..RETURNING bodies (PostgreSQL CTEs) - x 22 "
+             "positions (FROM, JOIN, IN, comparison, select item, CTE body, INSERT..SELECT, set-operation base / operand, CREATE TABLE AS, operands inside bracketed / "
+             "negated groups, JOIN ON, HAVING, function argument, CASE branch, and the main ones again inside an outer statement that qualifies its columns) x 6 dialects. Both renderings come from the real "
              "code (no reference renderer); J_C10 (TLC) evaluates the relation and reports the inner clause where the embedded text departs.",
         ref="6/C10", technique="TLA+ embedding relation (PT_Embed) over two real renderings; TLC-enumerated inner query x position product; TLC judge (J_C10)"),
     "C11": dict(
         text="PT_Builder specifies the namespace decision NeedsNS (joins, several FROM items, subquery in FROM, UPDATE..FROM, WHERE on a foreign table - "
              "decided against the current sources), the qualifier of every reference QualOf (alias always, name iff namespaces are needed) and name positions "
-             "(INSERT columns, SET targets, ON CONFLICT targets, USING) that stay bare; QualSeq gives the expected <<clause, qualifier, column>> sequence per "
+             "(INSERT columns, SET targets, ON CONFLICT targets, USING) that stay bare, conflict predicates and DO UPDATE assignments (always qualified; MySQL's ON DUPLICATE KEY "
+             "UPDATE never); QualSeq gives the expected <<clause, qualifier, column>> sequence per "
              "statement kind and dialect, and TLC checks RefQualified on it. TLC grows ~19k statements: 5 kinds x 5 base source shapes (plain, aliased, schema, "
              "subquery, CTE reference) x 8 second-source shapes x up to 2 (quick) / 3 (thorough) clause calls holding a field of an in-scope or foreign source. "
              "Each runs under the six dialect classes; J_C11 (TLC) folds the logged calls and compares the qualifier projection of the real tokens with QualSeq.",
@@ -57,16 +62,18 @@ CHECKS = {
     "C12": dict(
         text="PT_Builder!AliasSeq gives the expected <<clause, alias>> occurrences: a select item prints its alias once, GROUP BY / ORDER BY write an alias only "
              "if the select list defines it (and the dialect allows GROUP BY aliases), operands never print theirs; TLC checks RefAliasOnce on it. TLC enumerates "
-             "(14 PT_Expr term kinds + 23 further Term classes built by name, each carrying a unique alias) x 18 positions (defining positions, every operand "
-             "slot of arithmetic / function / CASE / comparison, WHERE, HAVING, GROUP BY, ORDER BY, JOIN ON, INSERT values, SET values, GROUP BY / ORDER BY by alias "
-             "or by expression) x 6 dialects; J_C12 (TLC) folds the calls and classifies differences of the alias projection of the real tokens as "
+             "(14 PT_Expr term kinds + 23 further Term classes built by name, each carrying a unique alias) x 30 positions (defining positions, every operand "
+             "slot of arithmetic / function / CASE / comparison incl. right operands, DISTINCT aggregates and window functions, WHERE, HAVING, GROUP BY, ORDER BY, JOIN ON, "
+             "INSERT values, SET values, GROUP BY / ORDER BY by alias or by expression, references made before the select list defines the alias, after it was replaced "
+             "by *, or with a late alias) x 6 dialects, each also inside a branching, render-interleaved history (thorough: also parameterised and embedded as FROM / IN "
+             "subquery, CTE, UNION operand); J_C12 (TLC) folds the calls and classifies differences of the alias projection of the real tokens as "
              "missing / spurious / duplicated / dangling-reference. Term subclasses of the live module that no generated kind reaches are listed in the evidence.",
         ref="6/C12", technique="TLA+ AliasSeq over the builder state (PT_Builder); TLC class x position product replayed; TLC trace judge on the alias projection (J_C12)"),
     "C13": dict(
         text="PT_Builder gives for every abstract state the statement kind, completeness and the depth-0 clause sequence ClauseSeq per dialect (rank tables of "
              "DESIGN App. C); TLC checks Confluent on the spec (adjacent independent calls commute in the model) while enumerating every subset of <=3 (quick) / "
-             "<=4 (thorough) calls of each family pool (15 SELECT, 9 INSERT/upsert, 7 UPDATE, 7 DELETE calls) and all its permutations. Every order is executed under "
-             "the six dialect classes; J_C13 (TLC) folds the logged calls through the spec and requires: clause sequence of the real tokens = ClauseSeq, balanced "
+             "<=4 (thorough) calls of each family pool (20 SELECT, 10 INSERT/upsert, 8 UPDATE, 8 DELETE calls) and all its permutations. Every order is executed under "
+             "the six dialect classes (under the generic one inside a branching history with every intermediate builder rendered); J_C13 (TLC) folds the logged calls through the spec and requires: clause sequence of the real tokens = ClauseSeq, balanced "
              "brackets/quotes, empty string for incomplete states, and ONE text for all orders that keep the relative order within each clause. Differences are "
              "attributed to adjacent transpositions. SQLite's parser prepares the SQLite-dialect statements of the SQLite-supported subset.",
         ref="6/C13", technique="TLA+ builder state machine with ClauseSeq/Complete (PT_Builder); TLC-enumerated permutations replayed; TLC trace judge (J_C13); sqlite3 prepare"),
@@ -76,7 +83,7 @@ CHECKS = {
              "one-shots), and TLC checks GuardsExact on the spec (agreement with an independently written availability predicate) on all 25 200 "
              "join programs. TLC grows every program of the families by transitions: joins (4 base shapes x CTE x prior join x 7 items x 225 criteria "
              "over 10 source shapes incl. aliased, schema, temporal, equal-but-distinct, subquery, CTE; both operand orders; function operands), all "
-             "orders of <=3 conflict-handler calls, all <=3-call statement-kind switches, set-operation arities, CASE, RETURNING x statement kind, "
+             "orders of <=3 conflict-handler calls, all <=3-call statement-kind switches, set-operation arities, CASE, RETURNING x statement kind x 15 term shapes (own / joined / foreign column, star, expression, CASE, aggregate), "
              "DDL / temporal / rollup one-shots. Each is executed on the real library and J_C14 (TLC) compares every call's and the render's exception "
              "class with the spec in both directions (missed / false rejection / wrong class).",
         ref="6/C14", technique="TLA+ guard functions over the abstract builder state (PT_Builder!Raises); TLC-grown programs replayed; TLC trace judge (J_C14)"),
@@ -94,7 +101,8 @@ CHECKS = {
              "render pass). ~2200 renderable objects (every catalogue seed and one-call successor, hash-order probes) are rendered 3x under "
              "6 contexts x inline/param, in 4-9 other interpreter processes with different PYTHONHASHSEED and from 6 threads; J_Render (TLC) "
              "requires every recorded render to be the spec action: digest unchanged, output equal to the first output of that context anywhere, "
-             "caller-supplied parameterizer only appended to.",
+             "caller-supplied parameterizer only appended to, and equal to what a fresh equal object gives when rendered under that one context only "
+             "(no render depends on what was rendered before).",
         ref="6/C02", technique="TLA+ interleaving model with measured write footprint (PT_RenderConc) + TLC trace judge of recorded renders (J_Render)",
         note=TLC_NOTE + " Thread schedules and hash seeds are sampled; the all-interleavings claim is on the model, bound to the code by the measured footprint."),
     "C03": dict(
@@ -102,8 +110,9 @@ CHECKS = {
              "every column qualified by the alias-or-name of its source, explicit AS, LIMIT -1 for a lone offset. TLC grows programs of the relational core (12 bases: "
              "plain / aliased / inner, left, cross, comma and self joins / subquery source / grouped / insert / upsert / update plain, FROM, JOIN / delete; clause units "
              "with ~150 select terms covering every arithmetic parent/child/side pair, ~45 criteria, DISTINCT, ORDER BY, LIMIT/OFFSET/slice, HAVING, window functions, "
-             "INSERT rows / INSERT..SELECT / REPLACE, upsert actions, SET expressions; quick: one unit, thorough: two) and prints each with RefFull and its suspects; SELECT "
-             "programs are also nested (FROM / IN subquery, unwrapped UNION / INTERSECT / EXCEPT). The real SQLite engine prepares both texts; identical EXPLAIN "
+             "INSERT rows / INSERT..SELECT / REPLACE, upsert actions incl. upsert from SELECT, SET expressions; quick: one unit, thorough: two) and prints each with RefFull and "
+             "its suspects; SELECT programs are also nested (FROM / IN subquery, sorted derived table under an outer LIMIT, unwrapped UNION / INTERSECT / EXCEPT). Programs whose "
+             "plain transcription the engine rejects with the same diagnosis are counted, not judged. The real SQLite engine prepares both texts; identical EXPLAIN "
              "bytecode means equivalent on all data, otherwise both run on 6 (quick) / 12 (thorough) seeded databases with NULLs (rows in order when ordered, final "
              "table contents for DML). J_C03 (TLC) checks that the executed reference is RefFull of the logged calls and turns the engine records into verdicts.",
         ref="6/C03", technique="TLA+ reference transcription (PT_RefSql) of TLC-grown programs; SQLite engine as oracle (prepare, EXPLAIN identity, execution); TLC trace judge (J_C03)",
@@ -113,15 +122,17 @@ CHECKS = {
              "parameterised token streams (identical at every non-placeholder position; the k-th placeholder has the dialect's text and stands where the inline "
              "stream has one literal decoding to values[k]; all values consumed, in order, plain data) plus Residue (no parameterised value's text left). TLC grows "
              "value-bearing programs: 5 statement kinds, ~25 value-bearing clause calls (constants, arithmetic, CASE, function args, arrays, GROUP BY expressions, "
-             "HAVING, JOIN ON, ORDER BY, WHERE =/IN/BETWEEN/bool, LIMIT/OFFSET, INSERT rows, upsert updates, SET) with pairwise distinct fresh values in up to 2 "
+             "HAVING, JOIN ON, ORDER BY, WHERE =/IN/BETWEEN/bool, LIMIT/OFFSET, INSERT rows, upsert updates, SET) and 20 further value-bearing term classes built by name "
+             "(aggregate / analytic FILTER, window partition / order, bitwise, LIKE, JSON operators, tuples, nested CASE, NOT, subquery operands ...) with pairwise distinct fresh values in up to 2 "
              "(quick) / 3 (thorough) clauses; each is placed at 6 nesting positions (top, subquery in FROM / IN / select item, set operation, CTE) and rendered both "
              "ways under the 6 dialect classes; J_C04 (TLC) walks the two real token streams; SQLite executes both forms on a small database.",
         ref="6/C04", technique="TLA+ parallel-walk relation between two real renderings (PT_Param); TLC-grown value-bearing programs; TLC judge (J_C04); sqlite3 execution of both forms"),
     "C05": dict(
         text="TLC proves on the specification that the intended string/identifier encoders round-trip through the reference lexer of every "
              "dialect, stand-alone and embedded, for all strings over a 20-class adversarial alphabet up to length 2 (quick) / 3 (thorough). "
-             "Then every string over the alphabet (plus hot triples, seeded Unicode strings and 20 non-string values) is inlined at 22 value "
-             "positions x 6 dialects through the real builders; TLC itself lexes the emitted characters (PT_Lex!Lex) and requires the benign "
+             "Then every string over the alphabet (plus hot triples, seeded Unicode strings and 20 non-string values) is inlined at 27 value "
+             "positions (incl. the JSON operators, whose document operand has its own serialiser) x 6 dialects through the real builders, and one value-bearing term "
+             "is rendered under two dialects in a row (12 positions x 5 dialect pairs); TLC itself lexes the emitted characters (PT_Lex!Lex) and requires the benign "
              "rendering's token list with the marker replaced by exactly one literal decoding to the value. Exhaustive over alphabet x "
              "position x dialect within the length bound.",
         ref="6/C05", technique="TLA+ reference lexer + encoder round-trip model-checked (PT_Lex, MC_Lex); TLC lexes real statement text (J_Lit)"),
@@ -129,7 +140,8 @@ CHECKS = {
         text="TLC proves on the specification that the intended identifier encoder (quote, double embedded quotes) round-trips through the "
              "reference lexer of every dialect, stand-alone and embedded in a qualified reference. Then ~250 names (all strings of length <=2 "
              "over a 13-class alphabet incl. both quote characters, dots, spaces, brackets; keywords; mixed case; seeded Unicode) are placed at "
-             "39 emission sites x 6 dialects through the real builders; TLC lexes the emitted characters and requires every occurrence of the "
+             "50 emission sites x 6 dialects through the real builders, and the same name-bearing objects (tables with their schemas, fields) are rendered under two "
+             "dialects with different quote characters in a row; TLC lexes the emitted characters and requires every occurrence of the "
              "benign marker identifier to have become one identifier token in the dialect's quote character decoding to the name, nothing else "
              "changed. Exhaustive over alphabet x site x dialect within the bound.",
         ref="6/C07", technique="TLA+ reference lexer + identifier encoder round-trip (PT_Lex, MC_Lex); TLC lexes real statement text (J_Lit)"),
@@ -137,23 +149,24 @@ CHECKS = {
         text="The intended replace_table is the recursive operator PT_Terms!Replace; TLC proves ReplaceComplete (no reference to old remains, "
              "every other reference unchanged, idempotent) on every generated expression tree and every pair of sources. Conformance: 46 term "
              "templates (every Term subclass with a table slot, at each operand position) and 30 statement clause-slot templates (FROM, JOIN item/ON/USING, "
-             "SELECT, WHERE, GROUP BY, HAVING, ORDER BY, SET, RETURNING, DISTINCT ON, ON CONFLICT, CTE, nested subqueries, set operations) x 4 (old,new) "
-             "pairs (plain, aliased, schema) x dialect builders are built on the real library three ways - replaced, rebuilt with the new table from "
+             "SELECT, WHERE, GROUP BY, HAVING, ORDER BY, SET, RETURNING, DISTINCT ON, ON CONFLICT, CTE, nested subqueries, set operations, single-source statements "
+             "with a foreign WHERE) x 5 (old,new) pairs (plain, aliased, schema, new = another source of the statement) x dialect builders are built on the real library three ways - replaced, rebuilt with the new table from "
              "the start, and the receiver before/after - and TLC (J_Replace) compares the token streams.",
         ref="6/C16", technique="TLA+ Replace operator with ReplaceComplete model-checked (PT_Terms); TLC judge of replaced vs rebuilt renderings (J_Replace)"),
     "C17": dict(
         text="TLC generates the full cross product of table constructions (name x 5 schema forms x alias x 3 temporal clauses x 2 query classes = 120), "
              "and 486 expression trees over fields of three tables with overlapping column names in every operand order, computing FieldsOf/TablesOf "
              "on each tree. The executor records ==, !=, hash and set/dict/list membership matrices for the table universes (and for schemas, "
-             "aliased queries and query builders) before and after rendering, and fields_()/tables_ of each built expression. TLC evaluates the "
+             "aliased queries, query builders and a universe of objects of different kinds sharing one name) before and after rendering, and fields_()/tables_ of each built "
+             "expression - also after every node was hashed, the expression re-targeted with replace_table and combined with the original. TLC evaluates the "
              "laws over all pairs and triples (reflexive, symmetric, transitive, == => equal hash, != = not ==, membership = linear search, "
              "stable under rendering) and compares the collections with the oracle. Exhaustive over the variant product.",
         ref="6/C17", technique="TLA+ laws and FieldsOf oracle (PT_Eq); TLC generates variants/trees (MC_Eq) and judges recorded matrices (J_Eq)"),
     "C18": dict(
         text="TLC proves on the specification that the intended encoder round-trips through the field-layout decoder for every 7-tuple "
              "over the digit-pattern set (either sign of the leading component, quarters, weeks, both templates); the same tuples plus "
-             "seeded multi-digit ones go through the real Interval.get_sql under six contexts and TLC decodes the emitted characters "
-             "with the same decoder and compares with the constructor arguments. Exhaustive over the digit-pattern product, which is "
+             "seeded multi-digit ones go through the real Interval.get_sql under six contexts - and, as operands, through 8 statement positions of the six dialect classes - and TLC decodes "
+             "the emitted characters with the same decoder and compares with the constructor arguments. Exhaustive over the digit-pattern product, which is "
              "the input dimension the trimming regex is sensitive to.",
         ref="6/C18", technique="TLA+ encoder/decoder pair (PT_Interval) model-checked for round trip; TLC decodes real literals (J_C18)"),
 }
@@ -191,7 +204,8 @@ def main():
                      "kind_free_text": "TLC 1.8 explicit-state model checker: generator of behaviours/inputs from the TLA+ specification and judge of traces recorded from the implementation"}],
         "checks": checks,
         "not_applicable": na,
-        "notes": "One entry point: ./check <Cxx> [--tier quick|thorough] [--replay path]; ./check setup; ./check selftest. See DESIGN.md.",
+        "notes": "One entry point: ./check <Cxx> [--tier quick|thorough] [--replay path]; ./check setup; ./check selftest (every judge must reject damaged traces); "
+                 "./check X01 (behaviour outside the property list, evidence_extra/). tools/reseed_all.sh re-tries the archived seeded changes. See DESIGN.md.",
     }
     json.dump(m, open(os.path.join(ROOT, "MANIFEST.json"), "w"), indent=1)
     print("checks:", len(checks), "not_applicable:", len(na))
